@@ -5,7 +5,7 @@ from checklib import Scenario
 
 RULE = ("per type: all boundary values, single-bit and power-of-ten neighbours and pseudo-random values (float/double: bit "
         "patterns incl. NaN, infinities, subnormals, zeros), every case variant of the boolean words; each value is set with "
-        "the typed setter, read with the matching getter, then the object is written (in half of the scenarios over a longer file saved before), read back and read again; "
+        "the typed setter (in half of the floating-point cases over a key that already holds the opposite zero / the neighbouring bit pattern), read with the matching getter, then the object is written (in half of the scenarios over a longer file saved before), read back and read again; "
         "the float/double expectations come from an exact rational model of correctly rounded printf/strtod "
         "(tools/floatoracle.py); distinct by value; thorough tier: EVERY float bit pattern, every int32 and every uint32 "
         "through setter and getter in-process (harness/sweep.c, 3 x 2^32 round trips, coverage.exhaustive_32bit); quick tier: 57 slices")
@@ -101,6 +101,14 @@ def gen(rng, tier):
             for j, v in enumerate(vals[i:i + per]):
                 k = b"k%d" % j
                 g = grp[j]
+                if kd in ("float", "double") and rng.random() < 0.5:
+                    # the key holds another value of the same type first: the opposite zero for a zero (equal under ==,
+                    # different bits), the neighbouring bit pattern otherwise
+                    bits = 32 if kd == "float" else 64
+                    pv = v ^ (1 << (bits - 1)) if v & ~(1 << (bits - 1)) == 0 else v ^ 1
+                    cmds.append(mk(kd, g, k, pv)); obs.append(False)
+                elif kd in ("int", "int64", "uint", "uint64") and rng.random() < 0.3:
+                    cmds.append(mk(kd, g, k, v ^ 1)); obs.append(False)
                 cmds.append(mk(kd, g, k, v)); obs.append(False)
                 if rng.random() < 0.25:
                     # a call that is refused must leave the stored value alone
